@@ -31,18 +31,18 @@ C03 = [
     _bm("hwloc_bitmap_set", lis=3, cost=15),
     _bm("hwloc_bitmap_clr", lis=3, cost=24),
     _bm("hwloc_bitmap_set_ith_ulong", lis=3, cost=24),
-    _bm("hwloc_bitmap_set_range", lis=10, cost=100),
-    _bm("hwloc_bitmap_clr_range", lis=10, cost=100),
+    _bm("hwloc_bitmap_set_range", lis=10, cost=200, split=3),
+    _bm("hwloc_bitmap_clr_range", lis=10, cost=200, split=3),
     _bm("hwloc_bitmap_isset", cost=1),
     _bm("hwloc_bitmap_iszero", lis=2, cost=1),
     _bm("hwloc_bitmap_isfull", lis=2, cost=1),
     _bm("hwloc_bitmap_isequal", lis=6, cost=2),
     _bm("hwloc_bitmap_intersects", lis=6, cost=2),
     _bm("hwloc_bitmap_isincluded", lis=6, cost=2),
-    _bm("hwloc_bitmap_or", lis=12, cost=160),
-    _bm("hwloc_bitmap_and", lis=12, cost=180),
-    _bm("hwloc_bitmap_andnot", lis=12, cost=170),
-    _bm("hwloc_bitmap_xor", lis=12, cost=110),
+    _bm("hwloc_bitmap_or", lis=12, cost=260, split=3),
+    _bm("hwloc_bitmap_and", lis=12, cost=280, split=3),
+    _bm("hwloc_bitmap_andnot", lis=12, cost=270, split=3),
+    _bm("hwloc_bitmap_xor", lis=12, cost=210, split=3),
     _bm("hwloc_bitmap_not", lis=3, cost=25),
     _bm("hwloc_bitmap_first", lis=2, cost=1),
     _bm("hwloc_bitmap_first_unset", lis=2, cost=1),
@@ -53,6 +53,7 @@ C03 = [
     _bm("hwloc_bitmap_singlify", lis=10, cost=25),
     _bm("hwloc_bitmap_weight", lis=3, cost=2),
     _bm("hwloc_bitmap_compare", lis=6, cost=5),
+    _bm("hwloc_bitmap_compare_inclusion", lis=10, cost=300, split=8),
 ]
 
 # quantified-hypothesis clauses (bitmap.quant.h): witness directions of the boolean queries and the
@@ -70,8 +71,9 @@ C03 += [
     _bq("hwloc_bitmap_intersects", lis=6),
     _bq("hwloc_bitmap_isincluded", lis=6),
     _bq("hwloc_bitmap_compare", lis=6, defs={"Q_COMPARE": None}),
-    _bq("hwloc_bitmap_compare_first", lis=3, cost=90, defs={"Q_COMPARE_FIRST": None}),
+    _bq("hwloc_bitmap_compare_first", lis=3, cost=250, qb=16, defs={"Q_COMPARE_FIRST": None}, split=2),
     _bq("hwloc_bitmap_singlify", lis=10, cost=90, defs={"Q_SINGLIFY": None}),
+    _bq("hwloc_bitmap_compare_inclusion", lis=10, cost=90, qb=16, defs={"Q_CINC": None}, split=8),
 ]
 
 # the same quantified contracts with no quantifier bound on the SMT back end (z3 5.1): proof.
